@@ -754,7 +754,7 @@ func main() {
 		os.Exit(v.Write())
 	}
 
-	exhLen := args.Pick(4, 5)
+	exhLen := args.Pick(5, 7)
 	var exh [][]op
 	for n := 2; n <= exhLen; n++ {
 		exh = append(exh, enumerate(n)...)
@@ -767,7 +767,8 @@ func main() {
 		nSamp, nRand, nConc = nSamp/4, nRand/4, nConc/2
 		if args.Thorough() {
 			exh = exh[:0]
-			for n := 2; n <= 4; n++ {
+			exhLen = 5
+			for n := 2; n <= exhLen; n++ {
 				exh = append(exh, enumerate(n)...)
 			}
 			nExh = len(exh)
